@@ -17,6 +17,12 @@ claimed["C02"]=dict(cat="model_checking", ref="DESIGN.md §5 C02",
 claimed["C04"]=dict(cat="model_checking", ref="DESIGN.md §5 C04",
    text="The real HeaderService read operations (GetHeaderByHash, GetHeadersState, GetTips, GetTip, GetHeaderAncestorsByHash) are executed symbolically through HeaderRepository, sql.HeadersDb and the SQL text (incl. the recursive CTEs and the tips UNION) over an arbitrary INV-H store; cvc5 decides on every path that the answer is what the stored tree implies (found iff stored and equal in every field; tips = longest tip plus every stale/orphan leaf, as a set; ancestors = the parent-linked path iff one descends from the other, an error otherwise) and that no row changed.",
    note="Trusted: go/ssa, executor, sqlm (validated per run against real SQLite), cvc5. Not yet encoded: by-height windows, common-ancestor, JSON mapping. Where 'descends from' is ambiguous for an orphan root whose parent was stored later, either reading is accepted.")
+claimed["C08"]=dict(cat="model_checking", ref="DESIGN.md §5 C08",
+   text="Page lemma: the real MerklerootsService.GetMerkleRoots -> HeaderRepository.GetMerkleRoots -> sql (sqlGetSingleMerkleroot, sqlMerkleRootsFromHeight with ORDER BY/LIMIT, sqlSelectTip) is executed symbolically from an arbitrary INV-H store with pairwise distinct merkle roots, an arbitrary key string and any page size >= 0; cvc5 decides that the page holds exactly the longest-chain rows of heights start+1.. in ascending order, at most the page size, that the returned key is empty iff the page is empty or ends at the tip, and that unknown / non-longest keys give 404 / 409. The walk over pages is the induction on this lemma (argument).",
+   note="Trusted: go/ssa, executor, sqlm with SQLite plan order (validated per run on real SQLite), cvc5. In-process state that survives between requests (none on the unchanged tree) is outside a single-step lemma; walks interleaved with ingestion are not composed yet.")
+claimed["C13"]=dict(cat="model_checking", ref="DESIGN.md §5 C13",
+   text="(a) LatestHeaderLocator is executed symbolically for EVERY tip height (71 paths cover the int32 domain) over an abstract longest chain: starts at tip, ends at genesis, strictly descending, step pattern 1,..,1,2,4,.., only longest-chain hashes, length bound. (b) range arithmetic of getheaders for every start/stop height (never more than 2000). (c) end to end: LocateHeadersGetHeaders through the real repository and SQL (IN-list MAX query, stop-height lookup, un-ORDERed range scan whose order is SQLite's index order) on arbitrary INV-H stores with arbitrary locator and stop hashes: exactly the longest-chain headers after the highest longest-chain locator entry, ascending, ending at the stop when it lies ahead, nothing when it does not.",
+   note="Trusted: go/ssa, executor, sqlm (validated per run on real SQLite), cvc5. The abstract chain used in (a)/(b) is justified by (c), C01 and C04. The 2000 cap is decided on abstract heights only.")
 NA={}
 checks=[]
 for p in props:
